@@ -7,9 +7,16 @@ cd /repo || exit 2
 if ! git diff --quiet; then echo "REFUSING: /repo has uncommitted changes"; exit 2; fi
 git apply "$patch" || { echo "$prop: patch does not apply"; exit 2; }
 log=$(mktemp /tmp/seedrun.XXXXXX)
+# the evidence file describes the unchanged tree: keep it out of the way of the run on the changed tree
+keep=$(mktemp /tmp/evkeep.XXXXXX); cp /verif/evidence/$prop.json "$keep" 2>/dev/null
 ( cd /verif && ./check "$prop" "$tier" ) > "$log" 2>&1
 code=$?
 git -C /repo checkout -q -- .
+cp "$keep" /verif/evidence/$prop.json 2>/dev/null; rm -f "$keep"
+# replay files written for the changed tree are scratch
+for r in $(grep -oE "replay=/verif/replays/[A-Za-z0-9-]+\.json" "$log" | cut -d= -f2 | sort -u); do
+  git -C /verif ls-files --error-unmatch "$r" >/dev/null 2>&1 || rm -f "$r"
+done
 first=$(grep -m1 -E "^VIOLATION|^MACHINERY|MACHINERY-ERROR" "$log")
 oracle=$(grep -m1 -E "^  oracle=" "$log")
 echo "$prop $tier exit=$code | $oracle | $first | log=$log"
